@@ -103,6 +103,12 @@ def run(ctx):
         spec = specs.elem_spec(r, cls, specs.width(cls, d) if cls != "FuzzyART" else d)
         if cls in ("FuzzyART", "HypersphereART") and r.random() < 0.6:
             spec["beta"] = 1.0
+        if cls in ("HypersphereART", "EllipsoidART") and r.random() < 0.35:
+            # rho = 0 with a sphere budget smaller than the data spread: only the (negative) match value
+            # keeps far samples out
+            spec["rho"] = 0.0
+            spec["alpha"] = max(spec["alpha"], 2.0 ** -10)
+            spec["r_hat"] = r.choice([0.25, 0.5])
         X = specs.elem_data(r, cls, n, d, floats=r.random() < 0.3 and cls != "ART1")
         mode = r.choice(MODES)
         # modes that may lower the threshold are excluded from the size bound by the theorem (MT-, finding F20)
